@@ -52,8 +52,42 @@ static void k_init(void) {
   fiber_manager_state = FIBER_MANAGER_STATE_STARTED;
 }
 
+#ifdef K_MIGRATE
+/* Kernel-thread MIGRATION (optional, scenarios that define K_MIGRATE): a fiber that yields or is suspended may be resumed by a
+   different kernel thread, i.e. under a different fiber_manager.  Every fiber gets a spare manager; whenever it comes back from
+   fiber_manager_yield the environment may have moved it there (fiber_manager_get() then returns the spare one, whose
+   current_fiber is this fiber).  Code that keeps using a manager pointer fetched before the yield then acts on a kernel thread
+   it is no longer running on; the contract assertion in k_schedule reports the case the property cares about: pushing a
+   runnable fiber onto another thread's run queue (the per-thread run queue is owner-push only).  Each manager's scheduler
+   field holds a token identifying the manager. */
+fiber_manager_t* k_alt[NF + 1];
+static void k_init_migrate(void) {
+  for (int t = 1; t <= NF; t++) {
+    fiber_manager_t* a = calloc(1, sizeof(*a));
+    a->id = 100 + t;
+    a->scheduler = (fiber_scheduler_t*)a;
+    k_alt[t] = a;
+    k_mgr[t]->scheduler = (fiber_scheduler_t*)k_mgr[t];
+  }
+}
+static inline void k_maybe_migrate(uint64_t t) {
+  if (vm_nondet() & 1) {
+    fiber_manager_t* const cur = fiber_the_manager;
+    fiber_manager_t* const alt = k_alt[t];
+    alt->current_fiber = cur->current_fiber;
+    alt->thread_fiber = cur->thread_fiber;
+    k_alt[t] = cur;
+    fiber_the_manager = alt;
+  }
+}
+#endif
+
 void k_schedule(fiber_scheduler_t* sched, fiber_t* f) {
+#ifdef K_MIGRATE
+  vm_assert((fiber_manager_t*)sched == fiber_the_manager, "contract (C02): a fiber was made runnable through the scheduler of a kernel thread the caller is not running on (stale manager pointer kept across a yield: a non-owner push onto that thread's run queue can lose the entry)");
+#else
   (void)sched;
+#endif
   for (int t = 1; t <= NF; t++) {
     if (k_fiber[t] == f) {
 #ifdef K_CHECK_EARLY_WAKE   /* costs three more shared reads per wake-up site: enabled by the scenarios whose subject is the wake-up hand-shake itself */
@@ -84,6 +118,9 @@ void k_yield(fiber_manager_t* m) {
   const fiber_state_t st = f->state;
   if (st == FIBER_STATE_RUNNING || st == FIBER_STATE_READY) {
     vm_spin();                      /* other fibers may run; the caller continues */
+#ifdef K_MIGRATE
+    k_maybe_migrate(t);
+#endif
     return;
   }
   /* the caller suspends */
@@ -100,6 +137,9 @@ void k_yield(fiber_manager_t* m) {
   k_suspended[t] = 0;
   vm_assert(f->state != FIBER_STATE_SAVING_STATE_TO_WAIT, "contract (C01): fiber resumed while still saving its state");
   f->state = FIBER_STATE_RUNNING;
+#ifdef K_MIGRATE
+  k_maybe_migrate(t);
+#endif
 }
 
 /* replaces fiber_context_destroy (fiber_context.c is not part of contract-kernel scenarios): the stack, if the
